@@ -114,4 +114,19 @@ $a = new Box<int>(); $a->set(1); $b = new Box<string>(); $b->set("s"); echo $a->
 	{"type-error-diagnostic", `function typed(int $x) { return $x; } echo typed(1), "\n"; echo typed("abc"), "\n";`},
 	{"parse-error-diagnostic", `echo "a"; if ($x > ) { echo 1; `},
 	{"exit-code", `echo "bye\n"; exit(3);`},
+	// the same class / function / constant names defined differently by different programs: any
+	// process-level cache keyed by name shows up as a difference between "B alone" and "B after A"
+	{"samename-hier-1", `interface Shape {} class Base {} class Item extends Base implements Shape { public $p = 1; const K = "k1"; static $s = 10; function who() { return "item1"; } }
+$i = new Item(); echo ($i instanceof Shape) ? "shape" : "no-shape", "|", ($i instanceof Base) ? "base" : "no-base", "|", $i->who(), "|", $i->p, "|", Item::K, "|", Item::$s, "\n";
+foreach ($i as $k => $v) { echo $k, "=", $v, ","; } echo "\n"; echo json_encode(class_implements("Item")), json_encode(class_parents("Item")), "\n";`},
+	{"samename-hier-2", `interface Shape {} class Base {} class Item { public $q = 2; public $p = 5; const K = "k2"; static $s = 20; function who() { return "item2"; } }
+$i = new Item(); echo ($i instanceof Shape) ? "shape" : "no-shape", "|", ($i instanceof Base) ? "base" : "no-base", "|", $i->who(), "|", $i->p, "|", Item::K, "|", Item::$s, "\n";
+foreach ($i as $k => $v) { echo $k, "=", $v, ","; } echo "\n"; echo json_encode(class_implements("Item")), json_encode(class_parents("Item")), "\n";`},
+	{"samename-func-1", `function helper($x = 1) { static $calls = 0; $calls = $calls + 1; return "h1:" . $x . ":" . $calls; } define("SHARED", "one"); echo helper(), helper(5), SHARED, "\n";`},
+	{"samename-func-2", `function helper($x = 2, $y = "z") { static $calls = 100; $calls = $calls + 1; return "h2:" . $x . $y . ":" . $calls; } define("SHARED", "two"); echo helper(), helper(7), SHARED, "\n";`},
+	{"samename-abstract-1", `abstract class Model { abstract function table(); function describe() { return "T:" . $this->table(); } } class User extends Model { function table() { return "users"; } } $u = new User(); echo $u->describe(), "\n";`},
+	{"samename-abstract-2", `class Model { function describe() { return "plain"; } } class User extends Model { } $u = new User(); echo $u->describe(), (method_exists($u, "table")) ? "has" : "hasnot", "\n";`},
+	{"samename-generic-1", `class Box<T> { public T $v; } $b = new Box<int>(); $b->v = 1; echo $b->v; try { $b->v = "s"; echo "accepted"; } catch (Throwable $e) { echo "rejected"; } echo "\n";`},
+	{"samename-generic-2", `class Box<T> { public T $v; } $b = new Box<string>(); $b->v = "s"; echo $b->v; try { $b->v = 1; echo "accepted"; } catch (Throwable $e) { echo "rejected"; } echo "\n";`},
+	{"vardump-dynamic", `$o = new stdClass(); $o->zeta = 1; $o->alpha = 2; $o->mid = [1, 2]; var_dump($o); $a = ["y" => 1, "x" => [true, null]]; var_dump($a); var_export($o); echo "\n";`},
 }
